@@ -163,17 +163,17 @@ def step (line : String) : String :=
   | some (s0, h0) =>
     let S := schemaFor line
     let p1 := checkAll S false s0
-    let h1 := h0 ++ bucketsEnsured S s0 p1.2
+    let h1 := h0 ++ bucketsEnsured S p1.2
     let d0 := renderState s0 h0
     let d1 := renderState p1.1 h1
     let p2 := checkAll S true p1.1
-    let h2 := h1 ++ bucketsEnsured S p1.1 p2.2
+    let h2 := h1 ++ bucketsEnsured S p2.2
     let d2 := renderState p2.1 h2
     let p3 := checkAll S false p2.1
-    let h3 := h2 ++ bucketsEnsured S p2.1 p3.2
+    let h3 := h2 ++ bucketsEnsured S p3.2
     let d3 := renderState p3.1 h3
     let p4 := checkAll S true p3.1
-    let h4 := h3 ++ bucketsEnsured S p3.1 p4.2
+    let h4 := h3 ++ bucketsEnsured S p4.2
     let d4 := renderState p4.1 h4
     " | ".intercalate
       [ "R1 " ++ renderReports p1.2,
